@@ -250,6 +250,34 @@ fn read_only() -> usize {
     bad
 }
 
+/// compile-time constants: each program must either be rejected by the compiler or run without
+/// a runtime error (none of them contains `!` or abort).
+fn constants() -> usize {
+    let progs = [
+        "x = {\"b\": 1}\nx.a = 2\n.r = 10 / x\n.",
+        "x = {\"a\": 2}\ndel(x.a)\n.r = 10 / x.a\n.",
+        "x = {\"a\": 2}\ndel(x.a)\n.r = x.a + 1\n.",
+        "x = {\"a\": 2, \"b\": 4}\ndel(x.a)\n.r = 10 / x.b\n.",
+        "x = 2\n.r = 10 / x\n.",
+        "x = 2\nx = 0\n.r = 10 / x\n.",
+        "x = 2\nif .c == 1 { x = 0 }\n.r = 10 / x\n.",
+        "x = [2, 3]\nx[0] = 0\n.r = 10 / x[0]\n.",
+        "x = 4\ny = x\nx = 0\n.r = 10 / y\n.",
+    ];
+    let mut bad = 0;
+    for src in progs {
+        match run_vrl(src, Value::Object(BTreeMap::new())) {
+            Ok(_) => {}
+            Err(e) if e.starts_with("compile error") => {}
+            Err(e) => {
+                bad += 1;
+                fail("constants", src, "rejected at compile time or runs without a runtime error", &e);
+            }
+        }
+    }
+    bad
+}
+
 fn main() {
     let unit = std::env::args().nth(1).unwrap_or_default();
     let bad = match unit.as_str() {
@@ -258,6 +286,7 @@ fn main() {
         "ctl_programs" => ctl_programs(),
         "format_int" => format_int(),
         "read_only" => read_only(),
+        "constants" => constants(),
         _ => {
             eprintln!("unknown witness unit {unit}");
             std::process::exit(2);
